@@ -214,7 +214,9 @@ Verdict judgeMisc(const Case& c) {
     else {
       double ryy = ry <= 0 ? rx : ry;
       size_t want = steps <= 2 ? (size_t)(3.141592653589793238 * std::sqrt((rx + ryy) / 2)) : steps;
-      if (e.size() != want) { v.fail("Ellipse vertex count " + std::to_string(e.size()) + ", expected " + std::to_string(want)); return v; }
+      // for radii below ~1 the default step formula yields fewer than 3 steps and the function returns a stub
+      // (a single point): the count clause is only meaningful for an actual polygon
+      if (want >= 3 && e.size() != want) { v.fail("Ellipse vertex count " + std::to_string(e.size()) + ", expected " + std::to_string(want)); return v; }
       for (auto& q : e) {
         ld nx = ((ld)q.x - ctr.x) / rx, ny = ((ld)q.y - ctr.y) / ryy;
         ld rad = hypotl(nx, ny);
